@@ -259,10 +259,62 @@ func init() {
 			return false
 		},
 
+		// strings.Builder (its real code uses unsafe): contents kept in a side table keyed by the receiver
+		"(*strings.Builder).WriteString": func(fr *frame, a []value) value {
+			b := fr.i.builder(a[0])
+			if s, ok := a[1].(sym); ok {
+				*b = append(*b, piece{s: fr.i.nm(s.kind, s.t), sym: true})
+				return tuple{symLen(s), iface{}}
+			}
+			*b = append(*b, piece{s: a[1].(string)})
+			return tuple{len(a[1].(string)), iface{}}
+		},
+		"(*strings.Builder).WriteByte": func(fr *frame, a []value) value {
+			b := fr.i.builder(a[0])
+			*b = append(*b, piece{s: string([]byte{a[1].(byte)})})
+			return iface{}
+		},
+		"(*strings.Builder).WriteRune": func(fr *frame, a []value) value {
+			b := fr.i.builder(a[0])
+			s := string(a[1].(rune))
+			*b = append(*b, piece{s: s})
+			return tuple{len(s), iface{}}
+		},
+		"(*strings.Builder).Write": func(fr *frame, a []value) value {
+			b := fr.i.builder(a[0])
+			bs := a[1].([]value)
+			buf := make([]byte, len(bs))
+			for k, x := range bs {
+				buf[k] = x.(byte)
+			}
+			*b = append(*b, piece{s: string(buf)})
+			return tuple{len(buf), iface{}}
+		},
+		"(*strings.Builder).String": func(fr *frame, a []value) value { return joinPieces(*fr.i.builder(a[0])) },
+		"(*strings.Builder).Len": func(fr *frame, a []value) value {
+			n := 0
+			for _, p := range *fr.i.builder(a[0]) {
+				if p.sym {
+					panic(engineError{"strings.Builder.Len with symbolic content"})
+				}
+				n += len(p.s)
+			}
+			return n
+		},
+		"(*strings.Builder).Grow":  nop,
+		"(*strings.Builder).Reset": func(fr *frame, a []value) value { *fr.i.builder(a[0]) = nil; return nil },
+
+		// GODEBUG settings: every setting has its default value
+		"(*internal/godebug.Setting).Value":         func(fr *frame, a []value) value { return "" },
+		"(*internal/godebug.Setting).IncNonDefault": nop,
+		"(*internal/godebug.Setting).Name":          func(fr *frame, a []value) value { return "setting" },
+
 		"runtime/debug.Stack": func(fr *frame, a []value) value {
 			return []value{byte('s'), byte('t'), byte('a'), byte('c'), byte('k')}
 		},
-		"runtime.KeepAlive": nop,
+		"runtime.KeepAlive":  nop,
+		"runtime.GOMAXPROCS": func(fr *frame, a []value) value { return 1 },
+		"runtime.NumCPU":     func(fr *frame, a []value) value { return 1 },
 		"os.Getwd":          func(fr *frame, a []value) value { return tuple{"/cwd", iface{}} },
 
 		"go/token.IsExported": isExportedIntrinsic,
@@ -320,6 +372,20 @@ func isExportedIntrinsic(fr *frame, a []value) value {
 	}
 	r, _ := utf8.DecodeRuneInString(a[0].(string))
 	return unicode.IsUpper(r)
+}
+
+// builder returns the contents of the strings.Builder at address p.
+func (i *interpreter) builder(p value) *[]piece {
+	if i.builders == nil {
+		i.builders = map[*value]*[]piece{}
+	}
+	key := p.(*value)
+	if b, ok := i.builders[key]; ok {
+		return b
+	}
+	b := &[]piece{}
+	i.builders[key] = b
+	return b
 }
 
 func atomicPtrField(p value) int {
